@@ -37,8 +37,19 @@ WORK = Path('/tmp/mut')
 SRC = Path('/repo/src/ampycloud')
 FILES = ['data.py', 'core.py', 'wmo.py', 'icao.py', 'scaler.py', 'cluster.py', 'layer.py', 'fluffer.py', 'utils/utils.py',
          'plots/core.py', 'plots/tools.py', 'plots/diagnostics.py', 'plots/secondary.py', 'dynamic.py']
-DIGESTS = ['C01_r1', 'C05_r1', 'C07_r1', 'C10_r1', 'C12_r1', 'C14_r1', 'C15_r1', 'C16_r1', 'C19_r1', 'C18_r1', 'C06_r1', 'C04_r1']
+DIGESTS = ['C01_r1', 'C05_r1', 'C07_r1', 'C10_r1', 'C12_r1', 'C14_r1', 'C15_r1', 'C16_r1', 'C19_r1', 'C18_r1', 'C06_r1', 'C04_r1', 'C20_r1']
 
+DIGESTS_BY_FILE = {
+    'data.py': ['C01_r1', 'C05_r1', 'C07_r1', 'C14_r1', 'C06_r1', 'C16_r1'],
+    'layer.py': ['C06_r1', 'C05_r1', 'C01_r1'],
+    'fluffer.py': ['C04_r1', 'C01_r1'],
+    'scaler.py': ['C19_r1', 'C05_r1'],
+    'utils/utils.py': ['C15_r1', 'C10_r1', 'C12_r1', 'C04_r1'],
+    'wmo.py': ['C18_r1', 'C01_r1'], 'icao.py': ['C01_r1'], 'core.py': ['C01_r1', 'C12_r1'], 'cluster.py': ['C05_r1'],
+    'dynamic.py': ['C12_r1'],
+    'plots/core.py': ['C20_r1'], 'plots/tools.py': ['C20_r1'], 'plots/diagnostics.py': ['C20_r1'],
+    'plots/secondary.py': ['C20_r1'],
+}
 CMP_SWAP = {ast.Lt: ast.LtE, ast.LtE: ast.Lt, ast.Gt: ast.GtE, ast.GtE: ast.Gt, ast.Eq: ast.NotEq, ast.NotEq: ast.Eq,
             ast.Is: ast.IsNot, ast.IsNot: ast.Is, ast.In: ast.NotIn, ast.NotIn: ast.In}
 BIN_SWAP = {ast.Add: ast.Sub, ast.Sub: ast.Add, ast.Mult: ast.Div, ast.Div: ast.Mult, ast.BitAnd: ast.BitOr,
@@ -273,7 +284,7 @@ def p2(m):
     try:
         changed = []
         base = json.loads((WORK / 'baseline_digests.json').read_text())
-        for name in DIGESTS:
+        for name in DIGESTS_BY_FILE.get(m['file'], DIGESTS):
             if _digest(wt, name) != base[name]:
                 changed.append(name)
                 break
@@ -330,7 +341,11 @@ def main():
             unstable = [n for n in DIGESTS if base[n] != base2[n]]
             print('unstable digests:', unstable)
         todo = [byid[i] for i, s in st.items() if not s['checks'] and 'digest' not in s and i in byid]
-        with ProcessPoolExecutor(max_workers=10) as pool:
+        plots = [m for m in todo if m['file'].startswith('plots/')]
+        random.Random(2).shuffle(plots)
+        keep = {m['id'] for m in plots[:150]}
+        todo = [m for m in todo if not m['file'].startswith('plots/') or m['id'] in keep]
+        with ProcessPoolExecutor(max_workers=9) as pool:
             for k, (mid, changed) in enumerate(pool.map(p2, todo)):
                 st[mid]['digest'] = changed
                 if k % 20 == 0:
